@@ -362,12 +362,42 @@ def static_property(pid, tier, seed, replay):
                 out_lines.append(f"note: {os.path.basename(pr['file'])} is still rejected by rustc, but not with the expected error ({pr['expect']}): the route stays closed, the probe has lost its point (informational)")
             else:
                 violations.append(dict(kind="probes", what=f"the must-compile twin {os.path.basename(pr['file'])} no longer compiles against the current API: the probe corpus no longer matches the code", detail=pr["output"][-800:]))
+    # C14's run-time face: the key must stay surrendered for the whole duration of a hold. The harness's raw
+    # unlock asks ThreadKey::get() (mark 24); the Lean predicate C14 evaluates every transcript of family acq.
+    dyn_fail = []; dyn_n = 0
+    if pid == "C14":
+        h_ok, h_out, h_dt = build_harness()
+        if not h_ok:
+            violations.append(dict(kind="correspondence", what="harness does not build against the current tree", detail=h_out[-2000:]))
+        else:
+            key = tree_hash(["/repo/src", os.path.join(ROOT, "harness", "src"), os.path.join(ROOT, "lean", "HLV", "Model"), os.path.join(ROOT, "lean", "Main.lean")])
+            for fam in ("acq", "unwind"):
+                r = run_family(fam, tier, seed, key)
+                if "error" in r:
+                    violations.append(dict(kind="crash", what=r["error"])); continue
+                fails, n = run_pred("C14", r["cases"], r["impl"])
+                dyn_n += n
+                cs = open(r["cases"]).read().splitlines(); im = open(r["impl"]).read().splitlines(); mo = open(r["model"]).read().splitlines()
+                nd = sum(1 for a, b in zip(im, mo) if a != b)
+                if nd:
+                    violations.append(dict(kind="correspondence", what=f"{nd} transcript disagreements in family {fam}",
+                                           detail=next((dict(case=c, impl=a, model=b) for c, a, b in zip(cs, im, mo) if a != b), None)))
+                for idx, msg in fails[:50]:
+                    dyn_fail.append(dict(case=cs[idx], impl=im[idx], message=msg))
+        evidence["dynamic_cases"] = dyn_n
     # known findings
     for f in known.get("findings", []):
         if f.get("property") != pid: continue
         hit = any(f["id"] in r["rule"] for r in known_rows) or any(pr.get("finding") == f["id"] and pr["ok"] for pr in probes)
         if hit:
             out_lines.append(f"KNOWN-FINDING: property={pid} {f['what']}")
+    if dyn_fail and not (new_items or probe_fail):
+        d = min(dyn_fail, key=lambda d: len(d["case"]))
+        p = write_replay(pid, "direct", dict(property=pid, kind="direct violation on the real code: a key is obtainable while the thread still owns a live hold",
+                 predicate="C14", message=d["message"], case=d["case"], impl_transcript=d["impl"], others=len(dyn_fail) - 1,
+                 replay_cmd=f"./check C05 --replay <this file>  (re-runs the case; the m24 marks in the transcript are the successful ThreadKey::get() calls inside raw unlocks)"))
+        out_lines.append(f"VIOLATION property={pid} replay={p}")
+        rc = 1
     if new_items or probe_fail:
         payload = dict(property=pid, kind="direct violation: the API surface of the current source breaks a rule / a must-not-compile program compiles",
                        offending_items=new_items,
@@ -697,7 +727,7 @@ def t1_property(pid, tier, seed, replay):
             n_direct_seen += 1
             direct.append(dict(case="zst: control", impl=pz.stdout[-500:], model=None, source="zst",
                                message="try_new rejects two non-empty owned collections that share no lock"))
-        for ctor in ("ref.try_new", "retry.try_new", "boxed.try_new"):
+        for ctor in ("ref.try_new", "retry.try_new", "boxed.try_new", "ref.try_new.mixed"):
             if zl.get(ctor) == "None":
                 case = f"zst: {ctor}(&(OwnedLockCollection::new([]), OwnedLockCollection::new([])))"
                 msg = "None for a duplicate-free input (two empty owned collections alias by address)"
@@ -718,6 +748,12 @@ def t1_property(pid, tier, seed, replay):
                 violations.append(dict(kind="obligation", what="static report does not build", detail=rout[-2000:]))
             else:
                 static_rows = [r for r in rows if pid in r["property"].split(",")]
+                for r in static_rows:
+                    if r["recorded"]:
+                        for f in known.get("findings", []):
+                            if f["id"] in r["rule"] and (f.get("property") == pid or pid in f.get("also", [])):
+                                known_hits[f["id"]] = known_hits.get(f["id"], 0) + len(r["recorded"])
+                                known_first.setdefault(f["id"], dict(case="(static) " + r["rule"], impl="; ".join(r["recorded"]), message=r["rule"]))
                 for r in static_rows:
                     if r["offending"]:
                         n_direct_seen += 1
